@@ -11,7 +11,8 @@ from .. import standalone as sa
 HDR_NAMES = [b"X-A", b"X-Custom-Header", b"Accept", b"Accept-Language", b"User-Agent", b"Referer", b"X-Forwarded-For", b"If-None-Match", b"x-lower", b"X-UPPER-CASE", b"Authorization"]
 HDR_VALUES = [b"v", b"text/html, */*;q=0.8", b"Mozilla/5.0 (X11; Linux) Gecko", b"\"quoted value\"", b"\"a \\\"b\\\" c\"", b"a=b; c=\"d e\"", b"(comment) token", b"en-US,en;q=0.5", b"W/\"etag-1\"",
               b"1.2.3.4, 5.6.7.8", b"x" * 300, b"with  two spaces", b"tab\there", b"Basic dXNlcjpwYXNz", b"non-ascii \xc3\xa9\xff",
-              b"http://x/y_(z", b"sad :-( face", b"5\" screen", b"unbalanced ) and (", b"(("]
+              b"http://x/y_(z", b"sad :-( face", b"5\" screen", b"unbalanced ) and (", b"((",
+              b"\"C:\\dir\\", b"http://x/(a\\", b"ends with a backslash\\", b"\"q\\"]
 SEG = [b"a", b"seg", b"with space", b"pl+us", b"per%cent", b"uni\xc3\xa9", b"\xff\xfe", b"semi;colon", b"q?mark", b"amp&", b"eq=", b"~tilde-._", b"hash#", b"quote\"", b"paren(", b"a.b", b"..", b".", b"x" * 60]
 
 
